@@ -166,11 +166,25 @@ def rsa_private_numbers(pem):
         return None
 
 
-def gen_key(kind, param=None, workdir="/tmp"):
+CACHE_DIR = os.path.join(os.path.dirname(os.path.abspath(__file__)), "keycache")
+
+
+def cached_key(kind, param, workdir="/tmp"):
+    """keys of unusual sizes that are slow to make (RSA-8192 takes a minute): made once with `openssl genpkey`, kept as
+    PEM files in harness/keycache/ and parsed like a fresh one.  A size that is not in the cache is generated."""
+    path = os.path.join(CACHE_DIR, "%s_%s.pem" % (kind, param))
+    if os.path.exists(path):
+        return gen_key(kind, param, workdir, pem=open(path, "rb").read())
+    return gen_key(kind, param, workdir)
+
+
+def gen_key(kind, param=None, workdir="/tmp", pem=None):
     path = os.path.join(workdir, "k_%s_%s_%d.pem" % (kind, param, os.getpid()))
     if kind == "oct":
         return Key("oct", k=os.urandom(param), bits=param * 8)
-    if kind == "rsa":
+    if pem is not None:
+        open(path, "wb").write(pem)
+    elif kind == "rsa":
         _run(["openssl", "genpkey", "-algorithm", "RSA", "-pkeyopt", "rsa_keygen_bits:%d" % param, "-out", path])
     elif kind == "rsapss":
         _run(["openssl", "genpkey", "-algorithm", "RSA-PSS", "-pkeyopt", "rsa_keygen_bits:%d" % param, "-out", path])
